@@ -72,3 +72,35 @@ prop("C16",
      mode="unrolled: design counts 2-3, objective counts 2-3, held sample counts 0-3 and index patterns enumerated; every sample value symbolic (unbounded)",
      trusted_base=["z3 5.1.0", "numpy.mean / numpy.var(ddof=0) definitions"],
      not_decided=["unbounded numbers of designs / samples (structure is enumerated, values are not)", "predict between add_sample and update (reading: prediction as of the last update)"])
+
+prop("C19",
+     level_text="get_smallmij / get_delta / utils.is_covered / get_uncovered_size / get_uncovered_set / calculate_epsilonF1_score are executed symbolically against their definitions (gap as min over facets of the clipped functional over its own alpha, max over designs, the coverage program pointwise equal to 'exists cone vector of norm <= eps', counts, the F1 formula, range, =1 on the true set); the geometric reading of the gap and the monotonicity in eps are lemmas.",
+     mode="unrolled m in {2,3}, K up to 4, N up to 4; index sets enumerated; all values symbolic",
+     assumptions=[A_SOLVE],
+     trusted_base=["z3 5.1.0", "cvc5 1.0.3", "alpha_k is the optimum C17 defines (upper bound + attained)"],
+     not_decided=["the hypervolume clause (botorch Hypervolume is external; a fact about a monotone set function, not about VOPy code)",
+                  "numerical correctness of cvxpy inside is_covered"])
+
+prop("C20",
+     level_text="get_closest_indices_from_points, ProblemFromDataset.evaluate (noiseless and noisy), get_noisy_evaluations_chol, the problem constructors' noise factor, BraninCurrin.evaluate's frame, DecoupledEvaluationProblem.evaluate and normalize/unnormalize are executed symbolically: nearest-row lookup (first minimiser), noise as the linear image of the RNG draw with covariance L L^T, requested components only, inputs never written, mutual inverses.",
+     mode="unrolled: up to 4 designs, 2-3 objectives, 1-2 query points; all values symbolic",
+     trusted_base=["z3 5.1.0", "sklearn euclidean_distances contract", "numpy.linalg.cholesky contract", "np.random.normal draws are standard normal, independent (law NOT modelled)"],
+     not_decided=["the sampling law of np.random.normal (only the linear map applied to the draw is proved)",
+                  "Dataset.__init__ scaling to [0,1] / zero-mean unit-variance (sklearn scalers are external)",
+                  "bundled data files' declared sizes"])
+
+prop("C08",
+     level_text="NaiveElimination.__init__ is executed symbolically and its default L proved equal to the property's formula with sigma = sqrt(noise_var) for all noise_var, epsilon, delta, beta; run_one_step's storage of one observation per design per round, the counters, the completion flag and the no-op after completion; P as get_pareto_set of the per-design means of all stored observations (get_pareto_set's exactness is C13).",
+     mode="K in {2,3,5}, m in {2,3} concrete; all real parameters symbolic",
+     trusted_base=["z3 5.1.0", "numpy.ceil / numpy.log / numpy.sqrt contracts",
+                   "ASSUMED: that the formula's L yields the (eps, delta)-PAC guarantee (Ararat & Tekin 2023) -- probability is not within reach of contracts"],
+     not_decided=["the probabilistic PAC conclusion itself (bounded numeric stand-in in the thorough tier)"])
+
+prop("C04",
+     level_text="The real compute_radius / compute_alpha / compute_beta bodies are executed symbolically (round, design count, delta, noise variance symbolic; objective count symbolic or m = 2..6) and proved, for every round, to return a scale at least as large as the minimal schedule for which the assumed Gaussian / chi-square tail inequalities and the union bound over designs, objectives and all rounds give total failure probability delta; domains of log and sqrt and positivity included.",
+     mode="scalar symbolic analysis; t, K unbounded integers; m symbolic where the schedule allows, else m = 2..6; contraction 1",
+     trusted_base=["z3 5.1.0", "cvc5 1.0.3"],
+     not_decided=["probability statements themselves (tail inequalities, union bound, series value are assumed axioms)",
+                  "PaVeBaPartialGP with hyperellipsoid confidence type and m >= 3: the Laurent-Massart term-wise bound does not close at t = 1 (left undecided, not reported as a violation)",
+                  "VOGP_AD's RKHS schedule and Auer's empirical-beta branch (not covered by the property's Gaussian argument)",
+                  "that the GP posterior is Gaussian with the predicted mean/variance (A-GP)"])
